@@ -66,7 +66,9 @@ pub fn run(ctx: &Ctx) -> Outcome {
         let c = rf::Ciph::new(cfg, key);
         let idxs = index_windows(d.w, win);
         let lim = rf::ctr_limit_blocks(d.w);
-        let mut batch = vec![1usize, par, 2 * par + 1];
+        // (W-1 and 2W-1: the longest tails a call can leave)
+        let mut batch = vec![1usize, par.saturating_sub(1).max(1), par, 2 * par - 1, 2 * par + 1];
+        batch.sort();
         batch.dedup();
         let data = pattern(seed, 0xC04D, (2 * par + 1) * bs);
         let ivset = ivs(seed, bs, d.w, d.be);
